@@ -90,6 +90,7 @@ func (t *treePipeline) outputProgrammably(w io.Writer, root *Node, cfg *config) 
 	rootStream := make(chan *Node)
 	go func() {
 		defer close(rootStream)
+		verifPoint("root.send")
 		rootStream <- root
 	}()
 	growStream, errcg := t.grower.grow(ctx, rootStream)
@@ -115,6 +116,7 @@ func (t *treePipeline) mkdirProgrammably(root *Node, cfg *config) error {
 	rootStream := make(chan *Node)
 	go func() {
 		defer close(rootStream)
+		verifPoint("root.send")
 		rootStream <- root
 	}()
 	t.grower.enableValidation()
@@ -149,6 +151,7 @@ func (t *treePipeline) verifyProgrammably(root *Node, cfg *config) error {
 	rootStream := make(chan *Node)
 	go func() {
 		defer close(rootStream)
+		verifPoint("root.send")
 		rootStream <- root
 	}()
 	t.grower.enableValidation()
@@ -177,6 +180,7 @@ func (t *treePipeline) walkProgrammably(root *Node, callback func(*WalkerNode) e
 	rootStream := make(chan *Node)
 	go func() {
 		defer close(rootStream)
+		verifPoint("root.send")
 		rootStream <- root
 	}()
 	growStream, errcg := t.grower.grow(ctx, rootStream)
@@ -223,12 +227,14 @@ func (*treePipeline) handlePipelineErr(ctx context.Context, echs ...<-chan error
 	for i := range echs {
 		i := i
 		eg.Go(func() error {
+			verifPoint("herr.wait")
 			select {
 			case err, ok := <-echs[i]:
 				if !ok {
 					return nil
 				}
 				if err != nil {
+					verifPoint("herr.got")
 					return err
 				}
 			case <-ectx.Done():
